@@ -107,6 +107,7 @@ class Runner:
     def __init__(self, tree, wid):
         self.tree = tree
         self.world = qworld.World(tree, os.path.join(vlib.scratch_root(), "qs-%s" % wid))
+        self.world.extra_env = {"VSHIM_MALLOC_TRACE": "1"}        # allocations appear in the trace, so they can be failed one by one
 
     def run(self, sc):
         return qhistory.run_scenario(self.tree, None, sc, world=self.world)
@@ -221,12 +222,14 @@ def sweep_modes(r, sc, sweep, record):
             continue
         if cls in ("pwrite", "close", "chdir", "lseek", "pipe", "fork", "flock", "read") and not (cls == "read" and e["key"].endswith("qmail-send")):
             continue
+        if cls == "malloc" and not (sweep.get("malloc") and e["key"].endswith("qmail-send")):
+            continue
         if (e["key"], cls, k) in seen:
             continue
         seen.add((e["key"], cls, k))
         errs = {"open": [errno.ENFILE, errno.EACCES], "write": [errno.ENOSPC, "short"], "fsync": [errno.EIO], "unlink": [errno.EIO], "stat": [errno.EIO],
                 "fstat": [errno.EIO], "link": [errno.EIO], "utimes": [errno.EIO], "read": [errno.EIO], "opendir": [errno.ENFILE], "readdir": [errno.EIO],
-                "ftruncate": [errno.EIO]}.get(cls, [])
+                "ftruncate": [errno.EIO], "malloc": [errno.ENOMEM]}.get(cls, [])
         for er in errs:
             sites.append({"kind": "fault", "key": e["key"], "cls": cls, "k": k, "err": str(er)})
     if sweep.get("fault_classes"):
